@@ -269,3 +269,12 @@ class Stopwatch(object):
 
     def elapsed(self):
         return time.time() - self.t0
+
+
+def safe_samples(fn):
+    """evidence samples are illustrations computed by calling the library again: a crash there (only possible when the
+    code under test misbehaves, which the verdict already reports) must not replace the verdict by a harness error"""
+    try:
+        return fn()
+    except BaseException as e:  # noqa
+        return [{"samples_unavailable": "%s: %s" % (type(e).__name__, str(e)[:120])}]
